@@ -30,7 +30,7 @@ RULE = (
     "failing exit}; mode A crash points = every prefix of the device event log (writes, flushes, "
     "acknowledgements) x every prefix length of the unflushed bytes (all lengths for lines < 600 bytes, "
     "boundaries and every 512th byte otherwise); mode B = real SIGKILL of a forked child at every "
-    "before-write / after-write / after-flush / after-ack boundary on a buffered disk file; "
+    "before-write / after-write / after-flush / after-ack boundary on real disk files of 5 kinds (binary buffered/unbuffered, text buffered / write-through / line-buffered); "
     "non-trivial = crash point that truncates the log (not the final one)"
 )
 ASSUMPTIONS = [
@@ -59,8 +59,10 @@ def units(tier):
     ps = _programs(tier)
     out = [["mem", i, min(i + 20, len(ps))] for i in range(0, len(ps), 20)]
     step = max(1, len(ps) // BOUNDS(tier)["real_programs"])
-    for i in range(0, len(ps), step):
-        out.append(["real", i])
+    for j, i in enumerate(range(0, len(ps), step)):
+        out.append(["real", i, FILE_KINDS[j % len(FILE_KINDS)]])
+    for fk in FILE_KINDS:
+        out.append(["real", 3 % len(ps), fk])
     return out
 
 
@@ -70,7 +72,27 @@ def cases(unit, tier):
         for i in range(unit[1], unit[2]):
             yield ["mem", ps[i]]
     else:
-        yield ["real", ps[unit[1]]]
+        yield ["real", ps[unit[1]], unit[2]]
+
+
+FILE_KINDS = ["binary-buffered", "binary-unbuffered", "text-buffered", "text-write-through", "text-line-buffered"]
+
+
+def open_kind(path, kind):
+    """The kinds of real file objects an application may hand to to_file()."""
+    import io
+
+    if kind == "binary-buffered":
+        return open(path, "ab")
+    if kind == "binary-unbuffered":
+        return open(path, "ab", buffering=0)
+    if kind == "text-buffered":
+        return open(path, "a", encoding="utf-8", newline="")
+    if kind == "text-write-through":
+        return io.TextIOWrapper(open(path, "ab"), encoding="utf-8", newline="", write_through=True)
+    if kind == "text-line-buffered":
+        return io.TextIOWrapper(open(path, "ab"), encoding="utf-8", newline="", line_buffering=True)
+    raise ValueError(kind)
 
 
 class Device(object):
@@ -277,8 +299,7 @@ class KillingFile(object):
             os.kill(os.getpid(), signal.SIGKILL)
 
     def write(self, data):
-        if not isinstance(data, bytes):
-            raise TypeError("bytes")
+        # bytes/str mode is the real file's: a text file raises TypeError for the b"" probe
         if not data:
             return self.real.write(data)
         self._maybe("before-write", self.nw)
@@ -299,7 +320,7 @@ class KillingFile(object):
         self.nack += 1
 
 
-def run_real(prog):
+def run_real(prog, kind="binary-buffered"):
     # crash-free reference in this process (in memory)
     events = []
     run_program(prog, lambda: Device(events), lambda: events.append(("ack",)))
@@ -329,7 +350,7 @@ def run_real(prog):
                     holder = {}
 
                     def factory():
-                        holder["f"] = KillingFile(open(path, "ab"), pt, w)
+                        holder["f"] = KillingFile(open_kind(path, kind), pt, w)
                         return holder["f"]
 
                     run_program(prog, factory, lambda: holder["f"].ack())
@@ -352,7 +373,7 @@ def run_real(prog):
             image = open(path, "rb").read() if os.path.exists(path) else b""
             if len(image) < len(buf):
                 nontrivial += 1
-            for sig, d in check_image(image, ref_lines, acked, {"kill_point": list(pt), "mode": "real-SIGKILL"}):
+            for sig, d in check_image(image, ref_lines, acked, {"kill_point": list(pt), "mode": "real-SIGKILL", "file": kind}):
                 viol.append((sig, d))
             if pt[0] == "never" and image != buf:
                 viol.append(("crash-free-disk-file-differs", {}))
@@ -370,7 +391,7 @@ def run_case(case):
         points, nontrivial, nlines, viol = run_mem(case[1])
         key = "crash_points_in_memory"
     else:
-        points, nontrivial, nlines, viol = run_real(case[1])
+        points, nontrivial, nlines, viol = run_real(case[1], case[2] if len(case) > 2 else "binary-buffered")
         key = "crash_points_real_sigkill"
     world.fresh()
     return Result(
